@@ -36,6 +36,9 @@ pub enum SchedKind {
     StallOne { victim: u32 },
     /// follow `trace` exactly
     Trace,
+    /// follow `trace` while it lasts (and names a runnable task), then always the lowest runnable id;
+    /// used by the minimiser to find the shortest schedule prefix that still matters
+    TracePrefix,
 }
 
 #[derive(Clone, Debug, PartialEq, Eq, Serialize, Deserialize)]
@@ -56,6 +59,7 @@ impl SchedSpec {
             SchedKind::NewestFirst => "newest_first",
             SchedKind::StallOne { .. } => "stall_one",
             SchedKind::Trace => "trace",
+            SchedKind::TracePrefix => "trace_prefix",
         }
     }
 }
@@ -181,6 +185,13 @@ impl SimScheduler {
                         log.stalled_decisions += 1;
                     }
                     others[self.rng.below(others.len())]
+                }
+            }
+            SchedKind::TracePrefix => {
+                let want = self.trace.as_ref().and_then(|t| t.get(self.step).copied());
+                match want {
+                    Some(w) if ids.contains(&w) => w,
+                    _ => *ids.iter().min().unwrap(),
                 }
             }
             SchedKind::Trace => {
